@@ -1293,6 +1293,34 @@ Proof.
   destruct X as [acc' M']. exists acc'. apply maybe_wait_ninv. exact M'.
 Qed.
 
+(* packets other than a non-empty STAT accept nothing new *)
+Lemma recv_packet_ninv_other idx pk st acc :
+  NInv st acc -> (forall s, pk <> PStat (Some s)) -> NInv (recv_packet c dl idx pk st) acc.
+Proof.
+  intros M Hpk. unfold recv_packet. destruct (running st) eqn:Hrun; cbn [negb]; [|exact M].
+  apply maybe_wait_ninv. destruct pk as [[s|]|id d| | |].
+  - exfalso. apply (Hpk s). reflexivity.
+  - destruct (r_closed st) eqn:Ecl; [apply NInv_stop; auto; discriminate|].
+    destruct (is_dead st) eqn:Ed; [apply NInv_stop; auto; discriminate|].
+    apply flush_ninv; auto. unfold live. rewrite Hrun, Ed. reflexivity.
+  - apply recv_data_ninv. exact M.
+  - apply NInv_stop; auto; discriminate.
+  - apply NInv_stop; auto; discriminate.
+  - exact M.
+Qed.
+
+Lemma NInv_files st acc files next :
+  NInv st acc -> NInv (set_valid st (r_vstk st) (r_seen st) files next) acc.
+Proof.
+  intros [G O]. split.
+  - apply (GInv_quiet D f0 tmps0 st _ acc b0 G); try (unfold b0; lia); simpl; auto.
+    + apply step_refl; [apply (g_wf D f0 tmps0 st acc (proj1 G))|apply (g_next D f0 tmps0 st acc (proj1 G))].
+    + repeat split.
+    + apply (proj1 G).
+  - apply (OInv_quiet st _ acc b0 (g_wf D f0 tmps0 st acc (proj1 G))); simpl; auto.
+    apply step_refl; [apply (g_wf D f0 tmps0 st acc (proj1 G))|apply (g_next D f0 tmps0 st acc (proj1 G))].
+Qed.
+
 Lemma recv_loop_ninv : forall pks idx st acc,
   NInv st acc -> Forall (clean_packet tmps0) pks -> exists acc', NInv (recv_loop c dl idx pks st) acc'.
 Proof.
